@@ -41,9 +41,14 @@ def main():
         if rc != 0:
             conf["apply_error"] = out[-500:]
         else:
-            rc, out = sh("/venv/bin/python -m pytest -q -p no:cacheprovider --timeout=900 -x -q 2>&1 | tail -3", cwd=wt)
+            xdg = f"/tmp/evalxdg_{sid}"
+            shutil.rmtree(xdg, ignore_errors=True)
+            os.makedirs(xdg)
+            tenv = dict(os.environ, XDG_DATA_HOME=xdg + "/data", XDG_CONFIG_HOME=xdg + "/config", XDG_CACHE_HOME=xdg + "/cache")
+            rc, out = sh("/venv/bin/python -m pytest -q -p no:cacheprovider --timeout=900 2>&1 | tail -3", cwd=wt, env=tenv)
+            shutil.rmtree(xdg, ignore_errors=True)
             conf["tests"] = out.strip().split("\n")[-1]
-            conf["tests_pass"] = " passed" in out and "failed" not in out and "error" not in out.lower()
+            conf["tests_pass"] = " passed" in conf["tests"] and "failed" not in conf["tests"] and "error" not in conf["tests"]
             rc, out = sh(f"/venv/bin/python {demo}", cwd=wt, timeout=600)
             conf["demo_with_patch_rc"] = rc
             conf["demo_with_patch_out"] = out[-400:]
